@@ -3,6 +3,7 @@ Partition laws of the statistics tables (C20): word categories, word-length bins
 words-per-line categories, line-width ranges; the per-document table as a fold.
 -/
 import PagexmlModel.Lemmas.C20Counter
+import PagexmlModel.Lemmas.C20Consts
 
 set_option linter.unusedSectionVars false
 set_option linter.unusedSimpArgs false
@@ -328,14 +329,20 @@ theorem lineWidth_partition (widths : List Int) (bps : List Int) :
     (∀ w, categoriseLineWidth w bps ∈ boundaryWidthRanges bps) ∧
     ckeys (lineWidthStats widths bps) = ckeys (lineWidthInit bps) := by
   obtain ⟨hz, _, hk⟩ := lineWidthInit_spec bps
-  refine ⟨?_, fun w => categoriseFrom_mem 0 w bps, ?_⟩
+  -- the only fact about the two regenerated starting points: they are equal
+  have hmem : ∀ w, categoriseLineWidth w bps ∈ boundaryWidthRanges bps := by
+    intro w
+    unfold categoriseLineWidth boundaryWidthRanges
+    rw [consts_width_starts_agree]
+    exact categoriseFrom_mem _ w bps
+  refine ⟨?_, hmem, ?_⟩
   · show ctotal (cupdate (lineWidthInit bps) _) = _
     rw [ctotal_cupdate, ctotal_allZero _ hz]; simp
   · show ckeys (cupdate (lineWidthInit bps) _) = _
     apply ckeys_cupdate_of_mem
     intro x hx
     obtain ⟨w, _, rfl⟩ := List.mem_map.mp hx
-    exact (hk _).mpr (categoriseFrom_mem 0 w bps)
+    exact (hk _).mpr (hmem w)
 
 /-! ### the per-document table -/
 
@@ -454,7 +461,7 @@ theorem getCol_init (cfg : DocCfg) (c : Col) : getCol (initDocStats cfg) c = [] 
 def rowKeysCfg (cfg : DocCfg) : List Col :=
   [Col.docId, .docNum, .docWidth, .docHeight] ++ (List.range numElems).map Col.elem ++
   [.numWords, .numAlpha, .numNumber, .numTitle, .numNonTitle, .numStop, .numPunct, .numOversized] ++
-  (lengthBins 5 cfg.maxLen (fun _ => 0)).map (fun b => Col.wordLen b.1) ++
+  (lengthBins cfg.wordSize cfg.maxLen (fun _ => 0)).map (fun b => Col.wordLen b.1) ++
   (Generated.C20.wplCats.map (fun c => c.1)).map Col.wpl ++
   (Generated.C20.wplCats.map (fun c => c.1)).map Col.awpl ++
   (ckeys (lineWidthInit cfg.bps)).map Col.lineWidth
@@ -462,10 +469,10 @@ def rowKeysCfg (cfg : DocCfg) : List Col :=
 theorem docRow_keys (ops : TextOps T W) (cls : WordClass W) (cfg : DocCfg) (pi : Nat) (d : Doc T) :
     (docRow ops cls cfg pi d).map (·.1) = rowKeysCfg cfg := by
   simp only [docRow, rowKeysCfg, List.map_append, List.map_map, List.map_cons, List.map_nil, Function.comp_def]
-  have hb : ∀ f : Nat → Nat, (lengthBins 5 cfg.maxLen f).map (fun x => Col.wordLen x.fst) =
-      (lengthBins 5 cfg.maxLen (fun _ => 0)).map (fun x => Col.wordLen x.fst) := by
+  have hb : ∀ f : Nat → Nat, (lengthBins cfg.wordSize cfg.maxLen f).map (fun x => Col.wordLen x.fst) =
+      (lengthBins cfg.wordSize cfg.maxLen (fun _ => 0)).map (fun x => Col.wordLen x.fst) := by
     intro f
-    have := congrArg (List.map Col.wordLen) (lengthBins_labels 5 cfg.maxLen f (fun _ => 0))
+    have := congrArg (List.map Col.wordLen) (lengthBins_labels cfg.wordSize cfg.maxLen f (fun _ => 0))
     simpa only [List.map_map, Function.comp_def] using this
   have hl : ∀ ws : List Int, (lineWidthStats ws cfg.bps).map (fun x => Col.lineWidth x.fst) =
       (lineWidthInit cfg.bps).map (fun x => Col.lineWidth x.fst) := by
@@ -475,10 +482,11 @@ theorem docRow_keys (ops : TextOps T W) (cls : WordClass W) (cfg : DocCfg) (pi :
   simp only [wordCatStats, ckeys, List.map_map, Function.comp_def]
   rw [hb, hl]
 
-/-- the computable check on a configuration: every row column is a column of the initial table,
-    and every column of the initial table occurs exactly once in a row -/
+/-- the computable check on a configuration: the bin range of `_init_doc_stats` does not raise (its step is
+    not 0), every row column is a column of the initial table, and every column of the initial table occurs
+    exactly once in a row -/
 def cfgOk (cfg : DocCfg) : Bool :=
-  decide ((rowKeysCfg cfg).Nodup) &&
+  decide (0 < cfg.initSize) && decide ((rowKeysCfg cfg).Nodup) &&
   (rowKeysCfg cfg).all (fun c => decide (c ∈ tkeys (initDocStats cfg))) &&
   (tkeys (initDocStats cfg)).all (fun c => decide (c ∈ rowKeysCfg cfg))
 
@@ -536,11 +544,12 @@ theorem mem_docRow_elem (ops : TextOps T W) (cls : WordClass W) (cfg : DocCfg) (
 theorem mem_docRow_num (ops : TextOps T W) (cls : WordClass W) (cfg : DocCfg) (i : Nat) (d : Doc T) :
     (Col.docNum, Val.int (i + 1)) ∈ docRow ops cls cfg i d := by
   simp [docRow]
+
 theorem cfgOk_spec (cfg : DocCfg) (h : cfgOk cfg = true) :
     (rowKeysCfg cfg).Nodup ∧ (∀ c ∈ rowKeysCfg cfg, c ∈ tkeys (initDocStats cfg)) ∧
-    (∀ c ∈ tkeys (initDocStats cfg), c ∈ rowKeysCfg cfg) := by
+    (∀ c ∈ tkeys (initDocStats cfg), c ∈ rowKeysCfg cfg) ∧ 0 < cfg.initSize := by
   simp only [cfgOk, Bool.and_eq_true, List.all_eq_true, decide_eq_true_eq] at h
-  exact ⟨h.1.1, h.1.2, h.2⟩
+  exact ⟨h.1.1.2, h.1.2, h.2, h.1.1.1⟩
 
 end docs
 
